@@ -1,7 +1,7 @@
 """C07 - identifiers bind to the innermost preceding declaration in scope (scope-stack clauses)."""
 from ..report import Check
 from ..callgraph import CallGraph
-from ..rules import stack, scopes
+from ..rules import stack, scopes, instances
 
 
 def run(F, G, tier, seed):
@@ -15,6 +15,8 @@ def run(F, G, tier, seed):
     scopes.resolve_rules(chk, F)
     scopes.push_parent(chk, F)
     scopes.no_symbol_cache(chk, F)
+    # P.x in queries: the type of x is taken with P's arguments substituted, i.e. through instance_t::mapping
+    instances.run(chk, F)
     return chk.finish(
         "Decides that the scope on top of the frame stack at every identifier callback is the one the grammar position "
         "implies: exact stack-effect typing of every callback (normal and caught-exception exits) and production, "
